@@ -449,3 +449,23 @@ def _random_model(seed, fnptr=False):
     for i, u in enumerate(rng.sample(USER_DECLS, rng.randint(2, len(USER_DECLS)))):
         user.append((rng.randint(0, 12), u))
     return Model(traits, groups, roots, user, rng.sample(USER_FUNCS, rng.randint(1, 3)))
+
+
+# ------------------------------------------------------------------------------------------ size model
+def rust_sizes(model, kind, name, inst, ctx):
+    """(size of the object, size of its container) as the Rust definitions lay them out on a 64-bit
+    target: #[repr(C)] structs of pointers, {instance, drop_fn} boxes, {instance, clone_fn, drop_fn}
+    arcs, a zero-sized NoContext, zero-sized RetTmp for traits without borrowed wrapped returns and
+    one MaybeUninit<object> per such return otherwise.  Everything is 8-aligned."""
+    isz = {"Box": 16, "Mut": 8, "Ref": 8}[inst]
+    csz = 24 if ctx == "Arc" else 0
+
+    def rettmp(trait):
+        return sum(rust_sizes(model, k, n, i, ctx)[0] for _, (k, n, i) in model.traits[trait].rettmp_fields)
+    if kind == "group":
+        mand, opt = model.groups[name]
+        traits = sorted(mand) + sorted(opt)
+        cont = isz + csz + sum(rettmp(t) for t in traits)
+        return 8 * len(traits) + cont, cont
+    cont = isz + csz + rettmp(name)
+    return 8 + cont, cont
